@@ -196,26 +196,32 @@ def setCurrentThread (d : DState) (t : Option Nat) : DState := { d with currentT
 
 /-! ## Runtime side: the statement hook -/
 
+/-- What the body of the `for breakpoint in breakpoints.iter_mut()` loop of `matches_breakpoint`
+does with one breakpoint: `skip` = other file or no overlap (`continue` before the hit counter),
+`miss` = counted, but the hit condition or the condition fails (a condition without an evaluation
+context fails), `log` = logpoint (`continue`), `pause` = `return Some(generation)`. -/
+inductive BpOutcome | skip | miss | log | pause
+deriving DecidableEq, Repr
+
+def bpOutcome (bp : Bp) (loc : Loc) (ctx : Bool) : BpOutcome :=
+  if bp.loc.file != loc.file then .skip
+  else if !(decide (loc.start < bp.loc.stop) && decide (bp.loc.start < loc.stop)) then .skip
+  else if !(match bp.hitCond with | some hc => hc.isMet (bp.hits + 1) | none => true) then .miss
+  else if !(match bp.cond with | some c => ctx && c | none => true) then .miss
+  else if bp.isLog then .log else .pause
+
 /-- `matches_breakpoint`: updated breakpoints (hit counters), number of log lines produced,
 generation of the breakpoint that pauses (the loop returns at the first one). -/
 def matchBps : List Bp → Loc → Bool → List Bp × Nat × Option Nat
   | [], _, _ => ([], 0, none)
   | bp :: rest, loc, ctx =>
-    if bp.loc.file != loc.file then
-      let r := matchBps rest loc ctx; (bp :: r.1, r.2.1, r.2.2)
-    else if !(decide (loc.start < bp.loc.stop) && decide (bp.loc.start < loc.stop)) then
-      let r := matchBps rest loc ctx; (bp :: r.1, r.2.1, r.2.2)
-    else
-      let bp' := { bp with hits := bp.hits + 1 }
-      let hitOk := match bp.hitCond with | some hc => hc.isMet bp'.hits | none => true
-      let condOk := match bp.cond with | some c => ctx && c | none => true
-      if !hitOk then
-        let r := matchBps rest loc ctx; (bp' :: r.1, r.2.1, r.2.2)
-      else if !condOk then
-        let r := matchBps rest loc ctx; (bp' :: r.1, r.2.1, r.2.2)
-      else if bp.isLog then
-        let r := matchBps rest loc ctx; (bp' :: r.1, r.2.1 + (if ctx then 1 else 0), r.2.2)
-      else (bp' :: rest, 0, some bp.gen)
+    match bpOutcome bp loc ctx with
+    | .skip => let r := matchBps rest loc ctx; (bp :: r.1, r.2.1, r.2.2)
+    | .miss => let r := matchBps rest loc ctx; ({ bp with hits := bp.hits + 1 } :: r.1, r.2.1, r.2.2)
+    | .log =>
+      let r := matchBps rest loc ctx
+      ({ bp with hits := bp.hits + 1 } :: r.1, r.2.1 + (if ctx then 1 else 0), r.2.2)
+    | .pause => ({ bp with hits := bp.hits + 1 } :: rest, 0, some bp.gen)
 
 /-- `target_thread.is_none() || target_thread == current_thread`. -/
 def isTarget (d : DState) : Bool := d.targetThread.isNone || d.targetThread == d.currentThread
